@@ -360,10 +360,6 @@ def enum_in_term(e, names, values):
         fw.coq_list([cstr(n) for n in names]), fw.coq_list([z(v) for v in values]))
 
 
-def rejected_out(status):
-    return None
-
-
 class ModuleRun:
     def __init__(self, idx, md, plan):
         self.idx, self.md, self.plan = idx, md, plan
